@@ -189,6 +189,7 @@ func DeepCopy(v any) any {
 
 // DiffKeys names top-level keys added, removed or changed between two versions of a map.
 func DiffKeys(before, after map[string]any) (added, removed, changed []string) {
+	added, removed, changed = []string{}, []string{}, []string{}
 	for k, a := range after {
 		b, ok := before[k]
 		if !ok {
